@@ -25,7 +25,7 @@ CHECKS = {
          "Crash at every boundary inside head/tail/all truncations and the appends that follow; recovered state must be the old or the new state exactly; unique entry ids distinguish generations at reused indexes.",
          "same as C01", "E1 crashsim", "4 C04"),
  "C13": ("fault_enumeration", "directory-listing invariant at quiescent points + online segment-ID monitor across crash generations",
-         "After every acknowledged call of the golden run and after Open on every crash image the directory must hold exactly the files of segments in committed metadata; ID rules (never reused, never below a committed NextSegmentID, no Create of an uncommitted ID) are evaluated at every CommitState/Create over the whole lifetime of a directory including crash generations.",
+         "After every acknowledged call of the golden run and after Open on every crash image the directory must hold exactly the files of segments in committed metadata; ID rules (never reused, never below a committed NextSegmentID, no Create of an uncommitted ID) are evaluated at every CommitState/Create over the whole lifetime of a directory including crash generations. Concurrent part: writer vs 2-5 readers under hook perturbation with the listing compared at quiescent points and no open handle allowed on an unlinked file; two pinned readers released in both orders; reader-pinning and failed-Create scripts.",
          "same as C01", "E1 crashsim", "4 C13"),
  "C05": ("exploration", "differential testing against a contiguous-log reference model after every step (exhaustive small-scope + random sequences)",
          "All sequences to a depth bound over an 18-template alphabet for 12 (segment size, start index) geometries, plus seeded random sequences (some on the real filesystem with BoltDB); after every step the full observable state is compared with the model in the live WAL and in a reopened copy of the directory.",
@@ -45,7 +45,7 @@ CHECKS = {
  "C16": ("exploration", "cluster simulation of the real verifier middleware with ground-truth judging of every delivered report",
          "Random 3-5 node histories (appends, checkpoints, replication with arbitrary batch splits and lags, leadership changes with conflicting suffixes, middleware restarts, head truncations, configuration/barrier entries) with no corruption injected; every delivered VerificationReport is judged against the harness's copy of what the checkpoint's leader held: a node holding the range exactly must not get ErrChecksumMismatch, a node lacking part must get ErrRangeMismatch.",
          "raft.InmemStore as the underlying store; the driver waits (by metric counts) for each report before touching the range again", "E4 vsim", "4 C16"),
- "C17": ("exploration", "single-fault injection into cluster histories (in flight / at rest, leader / follower) with expected-detection oracle",
+ "C17": ("exploration", "single-fault injection into cluster histories (in flight / at rest, leader / follower; every bit position of the integer fields) with expected-detection oracle",
          "For every (site, field, position, restart-in-range) combination one mutation is injected inside a verified checkpoint range; the delivered report for that range must carry ErrChecksumMismatch and no report may blame in-flight corruption when the node wrote exactly the leader's entries.",
          "FNV-1a collisions not searched for; index-1 configuration entry excluded as documented", "E4 vsim", "4 C17"),
  "C18": ("exploration", "twin-store differential testing through the middleware; parked ReportFn schedules with count-based accounting",
@@ -60,7 +60,7 @@ CHECKS = {
  "C11": ("exploration", "structure-aware corruption of valid directories under panic recovery, a VFS-enforced I/O step budget and an allocation bound",
          "11 file mutation operators and 11 metadata edits over generated directories, then Open + GetLog of everything + DumpLogs + Decode; never panic, never exceed the I/O step budget (logical 'loops forever') or the allocation bound; sealed segment missing / shorter than its header / foreign header must fail Open; a failed Open leaves no VFS handle or meta store open and, on a real directory with BoltDB, a second Open returns; Decode of structurally invalid encodings errors.",
          "single-threaded TotalAlloc deltas; 30s wall-clock watchdog only for pure-CPU loops", "E6 mutate", "4 C11"),
- "C14": ("exploration", "directed schedules through hook points (method x parking point x Close position) + stress, outcome classification, race detector",
+ "C14": ("exploration", "directed schedules through hook points (method x parking point x Close position; late-close scripts where a read spans a state replacement before Close) + stress, outcome classification, race detector",
          "Every LogStore/StableStore method parked at every hook point on its path while Close runs (or Close parked while the method runs); results must be correct or ErrClosed, never panic / other error / deadlock (goroutine blocked inside raft-wal after everything was released); after Close: all methods ErrClosed, second Close nil, rotation goroutine exited, no handles open, reopen shows everything acknowledged.",
          "hook points added under build tag verif; 15s watchdog whose expiry is a violation only with the goroutine blocked inside raft-wal", "E2 sched", "4 C14"),
  "C08": ("exploration", "lock-step stable-map model + per-key porcupine register check under concurrency + SIGKILL of child processes on real BoltDB + strace trace replay into power-loss images of wal-meta.db",
